@@ -131,6 +131,13 @@ impl CachedBlocks {
   /// Select the switchable ROM bank that lookups and insertions in the
   /// 0x4000-0x7fff region refer to.
   pub fn set_rom_bank(&mut self, bank: u16) {
+    if bank != self.rom_high.current_bank {
+      // A fixed-bank block whose last instruction reaches past 0x3fff took
+      // its operand bytes from the bank that was mapped when it was translated
+      self.rom_low.cache.retain(|key, block| {
+        MemoryLocation::from_u32(*key).address as usize + block.bytes_translated <= 0x4000
+      });
+    }
     self.rom_high.set_bank(bank);
   }
 
